@@ -75,12 +75,29 @@ def applyOne (lines : List Bytes) (st : Stmt) (repl : List Bytes) : List Bytes :
   let repl' := if shares then [head ++ rstripNl (repl.foldl (· ++ ·) []) ++ tail] else repl
   lines.take s ++ repl' ++ lines.drop (e + 1)
 
-/-- `rewrite_imports(source, mapping)`: `none` = nothing to do -/
-def rewriteImports (m : Mapping) (lines : List Bytes) (stmts : List Stmt) : Option Bytes :=
+/-- physical lines with their line ends kept, split at `\n`, `\r\n` and `\r` only — how the parser
+    numbers lines (`io.StringIO(source, newline='').readlines()`) -/
+def splitLines : Bytes → List Bytes
+  | [] => []
+  | src => go src [] 
+where
+  go : Bytes → Bytes → List Bytes
+    | [], cur => if cur.isEmpty then [] else [cur.reverse]
+    | 13 :: 10 :: r, cur => (10 :: 13 :: cur).reverse :: go r []
+    | 13 :: r, cur => (13 :: cur).reverse :: go r []
+    | 10 :: r, cur => (10 :: cur).reverse :: go r []
+    | c :: r, cur => go r (c :: cur)
+
+/-- `rewrite_imports(source, mapping)` on already split lines: `none` = nothing to do -/
+def rewriteLines (m : Mapping) (lines : List Bytes) (stmts : List Stmt) : Option Bytes :=
   let reps := stmts.filterMap (fun st => match st.kind with
     | .importFrom module level names => if level > 0 then none else some (st, replacementLines m module names)
     | .other => none)
   if reps.isEmpty then none
   else some ((reps.reverse.foldl (fun ls r => applyOne ls r.1 r.2) lines).foldl (· ++ ·) [])
+
+/-- `rewrite_imports(source, mapping)` -/
+def rewriteImports (m : Mapping) (src : Bytes) (stmts : List Stmt) : Option Bytes :=
+  rewriteLines m (splitLines src) stmts
 
 end D42.Migrate
